@@ -4015,7 +4015,13 @@ func (data *Data) checkDDLConflict(e *proto2.MigrateEventInfo) error {
 	if dbi.MarkDeleted {
 		return errno.NewError(errno.DatabaseIsBeingDelete)
 	}
+	// walk the policies in name order: every replica has to report the same conflict
+	rpNames := make([]string, 0, len(dbi.RetentionPolicies))
 	for rpName := range dbi.RetentionPolicies {
+		rpNames = append(rpNames, rpName)
+	}
+	sort.Strings(rpNames)
+	for _, rpName := range rpNames {
 		rpi := dbi.RetentionPolicies[rpName]
 		if rpi.MarkDeleted {
 			return errno.NewError(errno.RpIsBeingDelete)
